@@ -19,6 +19,7 @@ def mergeW (a b : W) : W := String.ofList (List.zipWith (fun x y => if x == y &&
 def wordOps (width : Nat) : WordOps W := ⟨String.ofList (List.replicate width 'x'), mergeW⟩
 
 def parseAddr (s : String) : Addr :=
+  if s == "-" then ⟨0, 0⟩ else   -- zero-width address bus (depth 1)
   s.toList.foldl (fun a c => ⟨a.val * 2 + (if c == '1' then 1 else 0), a.defd * 2 + (if c == 'x' then 0 else 1)⟩) ⟨0, 0⟩
 
 def parseTBit (s : String) : TBit :=
@@ -30,6 +31,8 @@ structure PortCfg where
   rmw : Bool := false
   share : Bool := false
   outXor : String := "-"
+  rdEn : Bool := false          -- the read latency registers have an enable pin
+  rst : List String := []       -- reset values of the read latency registers (first register first); [] = none
 
 structure Case where
   id : String := ""
@@ -44,6 +47,13 @@ structure Case where
   idle : Nat := 0
   resetCycles : Nat := 0
   memreset : Bool := false
+  asyncReset : Bool := false
+  noReset : Bool := false
+  chains : Array (List W) := #[]   -- mode 9: contents of the read latency registers per read port (first register first)
+  rcPred : Nat := 0
+  wrInReset : Bool := false   -- writes are driven while the reset is asserted: the reset logic drops them (post only)
+  specPost : ArrMem W := ⟨[]⟩
+  readsPost : Array (List W) := #[]
   ports : Array PortCfg := #[]
   mem : List W := []          -- model state
   spec : ArrMem W := ⟨[]⟩     -- specification state
@@ -148,14 +158,20 @@ partial def loop (h : IO.FS.Stream) (c : Case) (s : Stats) : IO Stats := do
   | "case" :: id :: rest =>
     let c : Case := { id := id, depth := (kvOf rest "depth").toNat!, width := (kvOf rest "width").toNat!, aw := (kvOf rest "aw").toNat!,
                       lat := (kvOf rest "L").toNat!, type := kvOf rest "type", init := kvOf rest "init", dev := kvOf rest "dev",
-                      mode := (kvOf rest "mode").toNat!, idle := (kvOf rest "idle").toNat!, resetCycles := (kvOf rest "resetcycles").toNat!, memreset := kvOf rest "memreset" == "1" }
+                      mode := (kvOf rest "mode").toNat!, idle := (kvOf rest "idle").toNat!, resetCycles := (kvOf rest "resetcycles").toNat!, memreset := kvOf rest "memreset" == "1",
+                      asyncReset := kvOf rest "async" == "1", wrInReset := kvOf rest "wrinreset" == "1", noReset := kvOf rest "noreset" == "1", rcPred := (kvOf rest "rcpred").toNat! }
     let s := { s with cases := s.cases + 1, hist := bump (bump (bump (bump s.hist s!"type:{c.type}") s!"L:{c.lat}") s!"init:{c.init}") s!"dev:{c.dev}" }
     let s := { s with hist := bump (bump s.hist (if c.depth == 2 ^ c.aw then "depth:pow2" else "depth:nonpow2")) s!"mode:{c.mode}" }
+    let s := if c.mode == 8 then { s with hist := bump (bump (bump s.hist (if c.asyncReset then "reset:async" else "reset:sync")) s!"reset-extra:{kvOf rest "extra"}")
+                                                         (if c.wrInReset then "reset:writes-during-reset" else "reset:write-right-after-reset") } else s
+    let s := if c.depth ≤ 2 then { s with hist := bump s.hist s!"depth:{c.depth}" } else s
     loop h c s
   | "port" :: _ :: kind :: rest =>
     let isW := kind == "W"
     let p : PortCfg := { isWrite := isW, cond := kvOf rest "cond" == "1", rmw := kvOf rest "rmw" != "-" && isW, share := kvOf rest "share" != "-" }
     let p := { p with outXor := if isW then "-" else kvOf rest "xor" }
+    let rstS := kvOf rest "rst"
+    let p := { p with rdEn := kvOf rest "en" == "1" && !isW, rst := if isW || rstS == "-" || rstS == "" then [] else rstS.splitOn "," }
     loop h { c with ports := c.ports.push p } s
   | "mem" :: ws =>
     let shape := String.ofList (c.ports.toList.map fun p => if p.isWrite then 'W' else 'R')
@@ -164,7 +180,13 @@ partial def loop (h : IO.FS.Stream) (c : Case) (s : Stats) : IO Stats := do
     let s := if c.ports.toList.any (·.outXor != "-") then { s with hist := bump s.hist "logic-before-latency-regs" } else s
     let s := if c.ports.toList.any (·.share) then { s with hist := bump s.hist "shared-address" } else s
     let s := if c.ports.toList.any (fun p => p.isWrite && !p.cond) then { s with hist := bump s.hist "unconditional-write" } else s
-    loop h { c with mem := ws, spec := ⟨ws⟩ } s
+    let undefW := (wordOps c.width).undef
+    let chains := (c.ports.toList.filter (!·.isWrite)).map fun p => if p.rst.isEmpty then List.replicate c.lat undefW else p.rst
+    let s := if c.mode == 9 then
+        (c.ports.toList.filter (!·.isWrite)).foldl (fun s p =>
+          { s with hist := bump s.hist s!"readreg:{if p.rst.isEmpty then "noreset-value" else "reset-value"}+{if p.rdEn then "enable" else "no-enable"}" }) s
+      else s
+    loop h { c with mem := ws, spec := ⟨ws⟩, specPost := ⟨ws⟩, chains := chains.toArray } s
   | "pre" :: r :: reason =>
     let c := { c with preOk := r == "ok", postOk := r == "ok" }
     let why := " ".intercalate reason
@@ -199,14 +221,19 @@ partial def loop (h : IO.FS.Stream) (c : Case) (s : Stats) : IO Stats := do
       s ← say s s!"post-rejected:{why}:{c.dev}" s!"PROPFAIL case={c.id} what=post-rejected reason={why} L={c.lat} type={c.type} dev={c.dev} reads={(c.ports.toList.filter (!·.isWrite)).length} writes={(c.ports.toList.filter (·.isWrite)).length}"
       c := { c with failed := true }
       s := { s with propfails := s.propfails + 1 }
-    if c.postOk && c.idle < c.resetCycles && c.mode != 7 then
+    if c.postOk && c.idle < c.resetCycles && c.mode != 7 && !c.wrInReset then
       s ← say s "idle" s!"DIFF case={c.id} what=harness-idle-shorter-than-reset idle={c.idle} reset={c.resetCycles}"
+      s := { s with diffs := s.diffs + 1 }
+    if c.postOk && c.mode == 8 && c.rcPred != c.resetCycles then
+      s ← say s "rcpred" s!"DIFF case={c.id} what=reset-cycles model={c.rcPred} impl={c.resetCycles} depth={c.depth} async={c.asyncReset}"
       s := { s with diffs := s.diffs + 1 }
     if c.postOk && c.lat ≥ 1 && c.ports.toList.any (·.rmw) then s := { s with hazardCases := s.hazardCases + 1 }
     loop h c s
   | "c" :: tStr :: ";" :: rest =>
     let t := tStr.toNat!
-    match splitSemi rest with
+    let fields := splitSemi rest
+    let ren := fields.getD 4 []
+    match fields.take 4 with
     | [pin, asyncR, prePins, postPins] =>
       let cfg : Cfg := ⟨c.depth, c.aw⟩
       let ops := wordOps c.width
@@ -233,6 +260,11 @@ partial def loop (h : IO.FS.Stream) (c : Case) (s : Stats) : IO Stats := do
           s := { s with rawCollisions := s.rawCollisions + raw, wwCollisions := s.wwCollisions + ww }
           let sr := ArrMem.ports ops.undef c.spec sops
           c := { c with spec := sr.1, reads := c.reads.push sr.2 }
+          if c.wrInReset then
+            -- after post-processing the reset logic owns the write port while the reset is asserted: writes issued then are dropped
+            let sopsP := if t < c.resetCycles then sops.map (fun o => match o with | .wr a _ d => Op.wr a false d | o => o) else sops
+            let srP := ArrMem.ports ops.undef c.specPost sopsP
+            c := { c with specPost := srP.1, readsPost := c.readsPost.push srP.2 }
         else
           if c.specOk then
             s := { s with specSkipped := s.specSkipped + 1 }
@@ -245,7 +277,35 @@ partial def loop (h : IO.FS.Stream) (c : Case) (s : Stats) : IO Stats := do
                     | .rd en a => !(en.defd && a.full cfg.aw) | .wr en we a _ => !(en.defd && we.defd && a.full cfg.aw)).length,
                         outOfRange := s.outOfRange + (ports.filter fun p => match p with
                     | .rd _ a => a.full cfg.aw && a.val ≥ cfg.depth | .wr _ _ a _ => a.full cfg.aw && a.val ≥ cfg.depth).length }
-        if c.specOk && t ≥ c.lat then
+        if c.specOk && c.mode == 9 then
+          -- read-register family: enabled shift registers with reset values behind the array read
+          let rports := c.ports.toList.filter (!·.isWrite)
+          let expect := c.chains.toList.map fun ch => ch.getLastD ops.undef
+          s := { s with preCmp := s.preCmp + expect.length, ops := s.ops + expect.length }
+          if !cmpPins expect prePins && !c.failed then
+            s ← say s "pre9" s!"PROPFAIL case={c.id} cycle={t} what=pre-readreg L={c.lat} type={c.type} async={c.asyncReset} model={expect} pins={prePins} enables={ren}"
+            c := { c with failed := true }
+            s := { s with propfails := s.propfails + 1 }
+          -- cycle 0 of a clock with reset is the reset cycle: the post-processed pins are compared from the first cycle after it
+          if c.postOk && (c.noReset || t ≥ 1) then
+            s := { s with postCmp := s.postCmp + expect.length, ops := s.ops + expect.length }
+            if !cmpPins expect postPins && !c.failed then
+              let bad := ((List.zip (List.zip expect postPins) rports).find? fun ((e, g), _) => !refinesW e g).map (·.2)
+              let hazard := c.ports.toList.any (·.rmw)
+              let pen := (bad.map (·.rdEn)).getD false
+              let prst := (bad.map (!·.rst.isEmpty)).getD false
+              s ← say s s!"post9:{c.dev}:{hazard}:{pen}:{prst}" s!"PROPFAIL case={c.id} cycle={t} what=post-readreg hazard={hazard} port_en={pen} port_rst={prst} L={c.lat} type={c.type} dev={c.dev} async={c.asyncReset} noreset={c.noReset} model={expect} pins={postPins} pre_pins={prePins} enables={ren}"
+              c := { c with failed := true }
+              s := { s with propfails := s.propfails + 1 }
+          -- clock edge
+          let inReset := !c.noReset && t < (if c.resetCycles == 0 then 1 else c.resetCycles)
+          let newReads := c.reads[t]!
+          let chains := (List.zip (List.zip c.chains.toList rports) (List.zip newReads (ren ++ List.replicate rports.length "-"))).map fun ((ch, p), (rd, e)) =>
+            if inReset && !p.rst.isEmpty then p.rst
+            else if e == "-" || e == "1" then (xorW rd p.outXor :: ch).take c.lat
+            else ch
+          c := { c with chains := chains.toArray }
+        if c.specOk && t ≥ c.lat && c.mode != 9 then
           let xors := (c.ports.toList.filter (!·.isWrite)).map (·.outXor)
           let expect := List.zipWith xorW (c.reads[t - c.lat]!) xors
           s := { s with preCmp := s.preCmp + expect.length, ops := s.ops + expect.length }
@@ -253,6 +313,7 @@ partial def loop (h : IO.FS.Stream) (c : Case) (s : Stats) : IO Stats := do
             s ← say s "pre" s!"PROPFAIL case={c.id} cycle={t} what=pre L={c.lat} type={c.type} arrmem={expect} pins={prePins}"
             c := { c with failed := true }
             s := { s with propfails := s.propfails + 1 }
+          let expect := if c.wrInReset then List.zipWith xorW (c.readsPost[t - c.lat]!) xors else expect
           if c.postOk && t - c.lat ≥ c.resetCycles then
             s := { s with postCmp := s.postCmp + expect.length, ops := s.ops + expect.length }
             if !cmpPins expect postPins && !c.failed && c.mode == 7 then
@@ -260,7 +321,7 @@ partial def loop (h : IO.FS.Stream) (c : Case) (s : Stats) : IO Stats := do
               c := { c with failed := true }
               s := { s with resetCycleDivergences := s.resetCycleDivergences + 1 }
             if !cmpPins expect postPins && !c.failed then
-              s ← say s s!"post:{c.dev}:{c.memreset}" s!"PROPFAIL case={c.id} cycle={t} what=post L={c.lat} type={c.type} dev={c.dev} memreset={c.memreset} arrmem={expect} pins={postPins} pre_pins={prePins}"
+              s ← say s s!"post:{c.dev}:{c.memreset}:{c.asyncReset}:{c.depth == 2 ^ c.aw}" s!"PROPFAIL case={c.id} cycle={t} what=post L={c.lat} type={c.type} dev={c.dev} memreset={c.memreset} async={c.asyncReset} depth={c.depth} pow2={c.depth == 2 ^ c.aw} resetcycles={c.resetCycles} arrmem={expect} pins={postPins} pre_pins={prePins}"
               c := { c with failed := true }
               s := { s with propfails := s.propfails + 1 }
         loop h c s
